@@ -17,7 +17,7 @@ CHECKS = {
    note="Trusted base: refmodels::sm4 modes, pinned by 794 OpenSSL 3.0 vectors (corpus/sm4_modes.json). For a final byte in 1..=16 with malformed padding only 'no panic and, if Ok, the right prefix' is demanded (the property does not ask for full PKCS#7 validation).", ref="§3 C07"),
  "C08": dict(tech=E1 + "; plus long-stream comparison",
    text="stateright BFS over every composition of every total <=12 words with up to 1 (thorough 2) empty requests on the real ZUC generator for 5 key/IV pairs, plus the 256 single-bit keys/IVs with short totals; invariant in every state: concatenated output equals the reference keystream prefix and each request returns the requested count. 2^16-word streams in 1, 16 and 256 requests compared word by word; reference counts S-box indices hit (1024/1024).",
-   note="Trusted base: refmodels::zuc (u64 arithmetic mod 2^31-1, generated S-boxes, three official vectors). The LFSR s16==0 branch cannot be forced from outside.", ref="§3 C08"),
+   note="Trusted base: refmodels::zuc (u64 arithmetic mod 2^31-1, generated S-boxes, three official vectors). The LFSR s16==0 replacement is exercised by crafted key/IV pairs (initialisation round 1) and pre-searched pairs (work mode), confirmed by the reference's branch counter.", ref="§3 C08"),
  "C18": dict(tech=E2,
    text="Every LENGTH 0..=600 (EIA3) / 1..=600 (EEA3) x (bearer,direction) pairs x 3 key/COUNT values x 3 message classes, and every single-bit flip of the message for every LENGTH<=96 and every 37th after, compared with bit-level 128-EEA3/128-EIA3 over the independent ZUC; EEA3 applied twice must restore the first LENGTH bits.",
    note="Trusted base: refmodels::zuc eea3/eia3, pinned by 3GPP EEA3 set 1 and EIA3 sets 1, 2 and the 577-bit set. LENGTH > 600 and messages shorter than ceil(LENGTH/32) words are outside the bound/contract.", ref="§3 C18"),
@@ -53,10 +53,10 @@ CHECKS = {
    note="Trusted base: refmodels::sm9 pinned by the Annex C1, C2, C3. Messages over 255 bytes are outside the property.", ref="§3 C10"),
  "C12": dict(tech=E2,
    text="P=[b]P1, Q=[a]P2 over {1,2,3,N-1,N-2,2^128,Annex ks,seeded}: full product a x b compared byte for byte (384 bytes) with e(P1,P2)^(ab) from the reference; the diagonal and a spread of pairs against a full reference evaluation on those very points; every pair again with Jacobian inputs Z != 1; e(P1,P2) != 1 and of order N; GM/T 0044.5 value of e(P1,Ppub-s).",
-   note="Trusted base: refmodels::sm9::pairing (generic Miller loop over 6t+2, two Frobenius steps, exponent (p^12-1)/N by square-and-multiply). The identity element is never paired.", ref="§3 C12"),
+   note="Trusted base: refmodels::sm9::pairing (generic Miller loop over 6t+2, two Frobenius steps, exponent (p^12-1)/N by square-and-multiply). Identity arguments must give 1.", ref="§3 C12"),
  "C13": dict(tech=E2,
    text="Fp / mod N limb-pattern and boundary alphabets; Fp2 all 24x24 boundary elements (unary on all, binary on a 1/5 stride of pairs, thorough all pairs); Fp4 all 6^4 elements; Fp12 one element per subset of zero components (4096) + basis: every unary op incl. the four Frobenius maps and inversion, mul/add/sub against 64 partners, pow, sparse line multiplication with every zero pattern; Booth recoding for w in {5,7}; G1/G2: [j]P x 4 Jacobian representations + infinity, all ordered pairs through add/sub/add_full/equality, scalar multiplication over every Booth (window,digit) combination, multiplication sequences over related bases, all 37x64 fixed-base table entries; against polynomial-basis and affine big-integer arithmetic.",
-   note="Trusted base: refmodels (Fp12 = Fp[w]/(w^12+2)). One known finding is listed (TwistPoint::point_equals ignores y). Non-canonical operands are never fed to the arithmetic.", ref="§3 C13"),
+   note="Trusted base: refmodels (Fp12 = Fp[w]/(w^12+2)). One known finding is listed (TwistPoint::point_equals returns 'x equal or y equal': 8 classes). Non-canonical operands are never fed to the arithmetic.", ref="§3 C13"),
  "C16": dict(tech=E2,
    text="Ha = q(N-1)+r over boundary/seeded q x r (incl. r in {0..5}, N-3, N-2), all-ones word patterns and seeded values through mod_n_from_hash; H1 for every identity length 0..=300 x hid x 2 contents; H2 over 36 length pairs; extraction for 7 master keys x 5 identities x {sign,enc,exch} and master keys crafted so that H1+k = 0, +-1: results equal (Ha mod (N-1))+1 and [k(H1+k)^-1]P, failure reported exactly when H1+k = 0.",
    note="Trusted base: big-integer arithmetic in refmodels::sm9; Annex ds_A / de_B pinned in the reference self-test.", ref="§3 C16"),
@@ -83,7 +83,16 @@ def main():
     na = []
     for pid in props:
         if pid in CHECKS:
-            c = CHECKS[pid]
+            c = dict(CHECKS[pid])
+            # the enumeration rule is kept next to the code that implements it (ctx.set_rule) and copied from the
+            # evidence of the last quick run, so that the claim cannot drift away from what the check does
+            try:
+                ev = json.load(open(f"{root}/evidence/{pid}.json"))
+                rule = ev["coverage"].get("rule", "")
+                if rule:
+                    c["text"] = "Exhaustive within the following alphabets and bounds (quick tier; the thorough tier widens them), every case executed on the real code and compared with the independent reference model; says nothing about inputs outside them. " + rule + (" Also: cold-start histories (each listed operation as the first operation of a fresh process vs the warm process)." if "cold_start_histories" in ev["coverage"].get("structural", {}) else "")
+            except Exception:
+                pass
             checks.append({
                 "property_id": pid,
                 "quick_cmd": f"./check {pid} quick",
